@@ -150,13 +150,13 @@ macro_rules! domain_harness {
     )*};
 }
 domain_harness! {
-    c20_domain_0 = 0, 20; c20_domain_1 = 1, 20; c20_domain_2 = 2, 20; c20_domain_3 = 3, 20;
-    c20_domain_4 = 4, 20; c20_domain_5 = 5, 20; c20_domain_6 = 6, 20;
+    c20_domain_0 = 0, 7; c20_domain_1 = 1, 7; c20_domain_2 = 2, 7; c20_domain_3 = 3, 7;
+    c20_domain_4 = 4, 7; c20_domain_5 = 5, 8; c20_domain_6 = 6, 9;
 }
 
 // a document without any EIP712Domain type is refused
 types_harness! {
-    #[kani::unwind(20)]
+    #[kani::unwind(7)]
     fn c20_domain_missing() {
         unsafe { DEFS = vec![("Mail", vec![member("name", MemberKind::String)])]; }
         let b = blob();
@@ -218,11 +218,32 @@ fn push_def(out: &mut [u8; 96], mut at: usize, t: usize, c0: u8, c1: u8) -> usiz
     at
 }
 
+/// the same without the array arms: symbolic execution does not prune match arms that only the
+/// assumption `c < 4` excludes, and an Array variant anywhere in the merged value re-enables the
+/// recursion of MemberKind::struct_reference at every call site
+fn graph_kind_flat(c: u8) -> MemberKind {
+    match c {
+        0 => MemberKind::Bool,
+        1 => MemberKind::Struct("A".to_string()),
+        2 => MemberKind::Struct("B".to_string()),
+        _ => MemberKind::Struct("P".to_string()),
+    }
+}
+
 fn check_encode_type(primary: usize, choices: [u8; 6]) {
+    check_encode_type_with(primary, choices, true)
+}
+
+fn check_encode_type_with(primary: usize, choices: [u8; 6], arrays: bool) {
     let mut defs = Vec::new();
     let mut t = 0;
     while t < 3 {
-        defs.push((TNAMES[t], vec![member("x", graph_kind(choices[2 * t])), member("y", graph_kind(choices[2 * t + 1]))]));
+        let (x, y) = if arrays {
+            (graph_kind(choices[2 * t]), graph_kind(choices[2 * t + 1]))
+        } else {
+            (graph_kind_flat(choices[2 * t]), graph_kind_flat(choices[2 * t + 1]))
+        };
+        defs.push((TNAMES[t], vec![member("x", x), member("y", y)]));
         t += 1;
     }
     unsafe { DEFS = defs; }
@@ -280,7 +301,7 @@ fn check_encode_type(primary: usize, choices: [u8; 6]) {
 macro_rules! encode_type_harness {
     ($($name:ident = $p:expr;)*) => {$(
         types_harness! {
-            #[kani::unwind(12)]
+            #[kani::unwind(5)]
             fn $name() {
                 let choices: [u8; 6] = kani::any();
                 let mut i = 0;
@@ -292,7 +313,7 @@ macro_rules! encode_type_harness {
                     kani::assume(choices[i] < 4);
                     i += 1;
                 }
-                check_encode_type($p, choices);
+                check_encode_type_with($p, choices, false);
             }
         }
     )*};
@@ -301,7 +322,7 @@ encode_type_harness! { c08_encode_type_a = 0; c08_encode_type_b = 1; c08_encode_
 
 // Smaller variant: primary P with members (x, y) symbolic, A and B have one symbolic member each.
 types_harness! {
-    #[kani::unwind(12)]
+    #[kani::unwind(5)]
     fn c08_encode_type_small() {
         let c: [u8; 4] = kani::any();
         let mut i = 0;
@@ -309,23 +330,24 @@ types_harness! {
             kani::assume(c[i] < 4);
             i += 1;
         }
-        check_encode_type(2, [c[0], 0, c[1], 0, c[2], c[3]]);
+        check_encode_type_with(2, [c[0], 0, c[1], 0, c[2], c[3]], false);
     }
 }
 
 // Concrete graphs whose references go through (nested) arrays, including recursion through arrays:
 // P(A[] x,B[2] y) A(P x,bool y) B(A[] x,A y)  and  self-recursive P(P x,A[] y).
 types_harness! {
-    #[kani::unwind(12)]
-    fn c08_encode_type_arrays() {
-        let which: bool = kani::any();
-        if which {
-            check_encode_type(2, [3, 0, 4, 1, 4, 5]);
-        } else {
-            check_encode_type(2, [0, 0, 0, 0, 3, 4]);
-        }
-        kani::cover!(which, "mutual recursion through arrays");
-        kani::cover!(!which, "self recursion");
+    #[kani::unwind(5)]
+    fn c08_encode_type_arrays_mutual() {
+        check_encode_type(2, [3, 0, 4, 1, 4, 5]);
+        kani::cover!(true, "reached");
+    }
+}
+types_harness! {
+    #[kani::unwind(5)]
+    fn c08_encode_type_arrays_self() {
+        check_encode_type(2, [0, 0, 0, 0, 3, 4]);
+        kani::cover!(true, "reached");
     }
 }
 
@@ -500,7 +522,7 @@ fn hex_string(bytes: &[u8]) -> String {
 
 // bool: true -> 1, false -> 0, any other JSON kind refused
 types_harness! {
-    #[kani::unwind(12)]
+    #[kani::unwind(6)]
     fn c08_atom_bool() {
         let which: u8 = kani::any();
         kani::assume(which < 4);
@@ -696,8 +718,8 @@ macro_rules! array_harness {
     )*};
 }
 array_harness! {
-    c09_array_fixed2_len1 = (2, 1, true), 12; c09_array_fixed2_len2 = (2, 2, true), 12; c09_array_fixed2_len3 = (2, 3, true), 12;
-    c08_array_dyn_len0 = (0, 0, false), 12; c08_array_dyn_len2 = (0, 2, false), 12;
+    c09_array_fixed2_len1 = (2, 1, true), 7; c09_array_fixed2_len2 = (2, 2, true), 7; c09_array_fixed2_len3 = (2, 3, true), 7;
+    c08_array_dyn_len0 = (0, 0, false), 7; c08_array_dyn_len2 = (0, 2, false), 7;
 }
 
 // ================================================================================= C08: member type grammar
@@ -963,8 +985,113 @@ fn check_width(prefix: &'static [u8], array: bool) {
     }
     core::mem::forget(got);
 }
-crate::verif_harness! { #[kani::unwind(12)] fn c08_kind_width_uint() { check_width(b"uint", false) } }
-crate::verif_harness! { #[kani::unwind(12)] fn c08_kind_width_int() { check_width(b"int", false) } }
-crate::verif_harness! { #[kani::unwind(12)] fn c08_kind_width_bytes() { check_width(b"bytes", false) } }
-crate::verif_harness! { #[kani::unwind(12)] fn c08_kind_width_uint_array() { check_width(b"uint", true) } }
-crate::verif_harness! { #[kani::unwind(12)] fn c08_kind_width_bytes_array() { check_width(b"bytes", true) } }
+crate::verif_harness! { #[kani::unwind(4)] fn c08_kind_width_uint() { check_width(b"uint", false) } }
+crate::verif_harness! { #[kani::unwind(4)] fn c08_kind_width_int() { check_width(b"int", false) } }
+crate::verif_harness! { #[kani::unwind(4)] fn c08_kind_width_bytes() { check_width(b"bytes", false) } }
+crate::verif_harness! { #[kani::unwind(4)] fn c08_kind_width_uint_array() { check_width(b"uint", true) } }
+crate::verif_harness! { #[kani::unwind(4)] fn c08_kind_width_bytes_array() { check_width(b"bytes", true) } }
+
+// ------------------------------------------------------------------------------------------------
+// encodeType over symbolic reference graphs with CONCRETE member kinds: every member is
+// `Struct(<one symbolic byte>)` with the byte in {A, B, P, Z}; Z is a leaf type without members. The enum
+// discriminant is a constant, so neither the recursive struct_reference nor the integer-formatting arms of
+// Display are explored (a symbolic discriminant made them explode, see above); the graph is symbolic through
+// the name bytes: all 4^6 graphs on {A, B, P} with two members each, primary type P, A or B.
+const NAMES4: [u8; 4] = [b'A', b'B', b'P', b'Z'];
+fn push_def_names(out: &mut [u8; 64], mut at: usize, t: u8, m0: u8, m1: u8, leaf: bool) -> usize {
+    out[at] = t;
+    out[at + 1] = b'(';
+    at += 2;
+    if !leaf {
+        out[at] = m0;
+        out[at + 1] = b' ';
+        out[at + 2] = b'x';
+        out[at + 3] = b',';
+        out[at + 4] = m1;
+        out[at + 5] = b' ';
+        out[at + 6] = b'y';
+        at += 7;
+    }
+    out[at] = b')';
+    at + 1
+}
+
+fn check_encode_type_names(primary: usize) {
+    let c: [u8; 6] = kani::any();
+    let mut i = 0;
+    while i < 6 {
+        kani::assume(c[i] < 4);
+        i += 1;
+    }
+    let name_of = |k: u8| -> String {
+        // concrete length, symbolic content
+        let mut s = String::with_capacity(1);
+        s.push(NAMES4[k as usize] as char);
+        s
+    };
+    let mut defs = Vec::new();
+    let mut t = 0;
+    while t < 3 {
+        defs.push((TNAMES[t], vec![
+            member("x", MemberKind::Struct(name_of(c[2 * t]))),
+            member("y", MemberKind::Struct(name_of(c[2 * t + 1]))),
+        ]));
+        t += 1;
+    }
+    defs.push(("Z", vec![]));
+    unsafe { DEFS = defs; }
+    let types = empty_types();
+    let got = types.encode_type(TNAMES[primary]);
+    // closure over {A, B, P, Z} (index 3 = Z)
+    let mut reach = [false; 4];
+    let mut work = [false; 4];
+    work[primary] = true;
+    let mut round = 0;
+    while round < 3 {
+        let mut t = 0;
+        while t < 3 {
+            if work[t] {
+                let mut m = 0;
+                while m < 2 {
+                    let r = c[2 * t + m] as usize;
+                    if !reach[r] {
+                        reach[r] = true;
+                        work[r] = true;
+                    }
+                    m += 1;
+                }
+            }
+            t += 1;
+        }
+        round += 1;
+    }
+    let mut exp = [0u8; 64];
+    let mut n = push_def_names(&mut exp, 0, NAMES4[primary], NAMES4[c[2 * primary] as usize], NAMES4[c[2 * primary + 1] as usize], false);
+    let mut t = 0;
+    while t < 4 {
+        if reach[t] && t != primary {
+            n = if t < 3 {
+                push_def_names(&mut exp, n, NAMES4[t], NAMES4[c[2 * t] as usize], NAMES4[c[2 * t + 1] as usize], false)
+            } else {
+                push_def_names(&mut exp, n, b'Z', 0, 0, true)
+            };
+        }
+        t += 1;
+    }
+    kani::cover!(reach[primary], "recursive primary type");
+    kani::cover!(reach[0] && reach[1] && reach[2] && reach[3], "everything reachable");
+    kani::cover!(c[2 * primary] == c[2 * primary + 1], "repeated dependency");
+    kani::cover!(c[2 * primary] != c[2 * primary + 1] && c[2 * primary + 1] as usize != primary && reach[primary], "mutual recursion");
+    match &got {
+        Ok(s) => {
+            let sb = s.as_bytes();
+            assert!(sb.len() == n, "encodeType: wrong set of referenced types (length differs)");
+            assert!(bytes_eq_sym::<4>(sb, &exp[..n]), "encodeType differs from primary + sorted transitive dependencies");
+        }
+        Err(_) => panic!("encodeType failed on a closed type graph"),
+    }
+    core::mem::forget(got);
+}
+types_harness! { #[kani::unwind(8)] fn c08_encode_type_names_p() { check_encode_type_names(2) } }
+types_harness! { #[kani::unwind(8)] fn c08_encode_type_names_a() { check_encode_type_names(0) } }
+types_harness! { #[kani::unwind(8)] fn c08_encode_type_names_b() { check_encode_type_names(1) } }
